@@ -32,6 +32,9 @@ def _prepare(units):
         modname = 'verif_kani_' + re.sub(r'\W', '_', u['harness_file'][:-3])
         with open(os.path.join(SCRATCH, u['attach_file']), 'a') as f:
             f.write(f'\n#[cfg(kani)]\n#[path = "{hp}"]\nmod {modname};\n')
+    # file times made a function of content (see probes.stamp_sources): no stale build when the tree changes "backwards in time"
+    from .probes import stamp_sources
+    stamp_sources(SCRATCH, 'kani-src-stamps.json')
 
 
 def run(units, prop, tier='thorough'):
